@@ -216,25 +216,66 @@ fn filter_on(sym: SymbolSize, which: u8) {
     kani::cover!(keep);
 }
 
-macro_rules! filt {
-    ($name:ident, $sym:ident, $which:expr, $klo:expr, $khi:expr) => {
-        #[kani::proof]
-        #[kani::unwind(8)]
-        fn $name() {
-            filter_on_k(SymbolSize::$sym, $which, $klo, $khi);
+/// Width / height filter on a one-symbol list for every combination of bound
+/// kinds (unbounded / included / excluded) x bound values {d-1, d, d+1} around
+/// the symbol's dimension d, at both ends (49 closed terms per axis: with a
+/// symbolic predicate outcome BTreeSet::retain exhausts CBMC's memory).
+fn filter_grid(sym: SymbolSize, which: u8) {
+    let bs = sym.block_setup();
+    let d = if which == 0 { bs.width } else { bs.height };
+    let mut klo = 0u8;
+    while klo < 7 {
+        let mut khi = 0u8;
+        while khi < 7 {
+            // 0: unbounded, 1..=3: included d-1,d,d+1, 4..=6: excluded d-1,d,d+1
+            let mk = |k: u8| -> Bound<usize> {
+                if k == 0 {
+                    Bound::Unbounded
+                } else if k <= 3 {
+                    Bound::Included(d + k as usize - 2)
+                } else {
+                    Bound::Excluded(d + k as usize - 5)
+                }
+            };
+            let (lo, hi) = (mk(klo), mk(khi));
+            let list = SymbolList::with_whitelist([sym]);
+            let out = if which == 0 { list.enforce_width_in((lo, hi)) } else { list.enforce_height_in((lo, hi)) };
+            let keep = in_bounds(lo, hi, d);
+            assert!(out.contains(&sym) == keep);
+            assert!(out.is_empty() == !keep);
+            khi += 1;
         }
-    };
+        klo += 1;
+    }
 }
-// kinds: 0 unbounded, 1 included, 2 excluded (lower, upper)
-filt!(cat_filter_w_ei, Rect8x18, 0, 2, 1);
-filt!(cat_filter_w_ie, Rect8x18, 0, 1, 2);
-filt!(cat_filter_w_uu, Rect8x18, 0, 0, 0);
-filt!(cat_filter_w_eu, Rect8x18, 0, 2, 0);
-filt!(cat_filter_w_ui, Rect8x18, 0, 0, 1);
-filt!(cat_filter_h_ei, Rect12x26, 1, 2, 1);
-filt!(cat_filter_h_ie, Rect12x26, 1, 1, 2);
-filt!(cat_filter_h_eu, Rect12x26, 1, 2, 0);
-filt!(cat_filter_h_ue, Rect12x26, 1, 0, 2);
+
+#[kani::proof]
+#[kani::unwind(9)]
+fn cat_filter_w() {
+    filter_grid(SymbolSize::Rect8x18, 0);
+}
+
+#[kani::proof]
+#[kani::unwind(9)]
+fn cat_filter_h() {
+    filter_grid(SymbolSize::Rect12x26, 1);
+}
+
+/// The same filters must not confuse the axes: width filter with bounds around
+/// the HEIGHT of a rectangular symbol keeps it iff its width satisfies them.
+#[kani::proof]
+#[kani::unwind(9)]
+fn cat_filter_axes() {
+    let sym = SymbolSize::Rect8x18;
+    let a = SymbolList::with_whitelist([sym]).enforce_width_in(8..=8);
+    assert!(a.is_empty());
+    let b = SymbolList::with_whitelist([sym]).enforce_height_in(8..=8);
+    assert!(b.contains(&sym));
+    let c = SymbolList::with_whitelist([sym]).enforce_width_in(..18);
+    assert!(c.is_empty());
+    let d = SymbolList::with_whitelist([sym]).enforce_height_in(9..);
+    assert!(d.is_empty());
+}
 
 #[kani::proof]
 #[kani::unwind(8)]
